@@ -505,6 +505,8 @@ func c17ExecChan(cfg *c17Cfg, rows []*c17Row) [][][]string {
 
 const c17Sentinel = "zsent"
 
+var c17SentinelLost int
+
 func c17SQL(cfg *c17Cfg) string {
 	rng := rand.New(rand.NewSource(cfg.style))
 	var sel []string
@@ -553,7 +555,13 @@ func c17ExecSQL(cfg *c17Cfg, rows []*c17Row) [][][]string {
 	}
 	s.Emit(sent)
 	var got []map[string]interface{}
-	deadline := time.After(5 * time.Second)
+	// a lost sentinel is itself reported as a failure; once that has happened the remaining
+	// cases of the run do not wait long for theirs
+	wait := 4 * time.Second
+	if c17SentinelLost > 0 {
+		wait = 250 * time.Millisecond
+	}
+	deadline := time.After(wait)
 	for {
 		select {
 		case m := <-ch:
@@ -562,6 +570,7 @@ func c17ExecSQL(cfg *c17Cfg, rows []*c17Row) [][][]string {
 			}
 			got = append(got, m)
 		case <-deadline:
+			c17SentinelLost++
 			out := c17Attribute(cfg, rows, got)
 			if len(out) > 0 {
 				out[len(out)-1] = append(out[len(out)-1], []string{"sentinel-lost"})
